@@ -27,6 +27,7 @@ func Replay(r *mon.Run, raw json.RawMessage) {
 		r.Inconclusive("rule not registrable on this tree: " + err.Error())
 		return
 	}
+	defer e.close()
 	r.Distinct("replay-a")
 	r.Distinct("replay-b")
 	apply(r, &c, execCase(e, &c))
